@@ -9,6 +9,7 @@ import Ladybug.Proofs.C19Lemmas
 import Ladybug.Proofs.C19Struct
 import Ladybug.Proofs.C19Time
 import Ladybug.Proofs.C19Obj
+import Ladybug.Proofs.C19Shapes
 
 namespace Sql
 
@@ -828,5 +829,119 @@ theorem C19_reporting_frequency (conv : α → α) (db : DB α) (ops : List Op) 
 
 example : extractTimestep [⟨1, 2017, 1, 1, 10, -1, 1⟩, ⟨2, 2017, 1, 1, 60, 1, 1⟩] = .ok 6 := by decide
 
+
+/-! ### Round 4: the leap flag of design days (Year 0), the shape of the name argument, the case split
+    of the time-table stage -/
+
+/-- The leap-year rule of `_extract_run_period` as a case split: a year is taken as a leap year exactly
+    when it is not 0 and divisible by 4.  Year 0 - what EnergyPlus writes for design days - is never one. -/
+theorem C19_leap_rule (y : Nat) : (leapOfYear y = true ↔ (y ≠ 0 ∧ y % 4 = 0)) ∧ leapOfYear 0 = false := by
+  refine ⟨?_, rfl⟩
+  unfold leapOfYear
+  simp only [Bool.and_eq_true, bne_iff_ne, ne_eq, beq_iff_eq]
+
+/-- Whatever the first and last `Time` rows are: when `_extract_run_period` answers with an analysis
+    period, its leap flag is the rule applied to the year of the LAST row (no hypothesis on dates,
+    interval or interval type). -/
+theorem C19_leap_flag_from_last_row (s e : TimeRow) (p : Period) (f : Freq) (m : Bool)
+    (h : extractRunPeriodRows (some s) (some e) = .ok (some p, f, m)) : p.leap = leapOfYear e.year :=
+  extractRunPeriodRows_leap s e p f m h
+
+/-- Design days: data whose last `Time` row carries Year 0 never gets a leap-year analysis period -
+    hourly, sub-hourly, daily or monthly, any dates. -/
+theorem C19_year0_common_year (s e : TimeRow) (p : Period) (f : Freq) (m : Bool) (h0 : e.year = 0)
+    (h : extractRunPeriodRows (some s) (some e) = .ok (some p, f, m)) : p.leap = false := by
+  rw [extractRunPeriodRows_leap s e p f m h, h0]
+  rfl
+
+/-- Sample (kernel-evaluated test): a summer design day, 4 steps per hour, Year 0. -/
+example : extractRunPeriodRows (some ⟨1, 0, 7, 21, 15, -1, 1⟩) (some ⟨96, 0, 7, 21, 15, -1, 1⟩) =
+    .ok (some ⟨7, 21, 0, 7, 21, 23, 4, false⟩, .steps 4, false) := by decide +kernel
+
+/-- All run periods rebuilt by `_extract_all_run_period` carry the one leap flag the caller passed
+    (the flag of the last data row): the periods of one answer never disagree about the year kind. -/
+theorem C19_all_run_periods_one_leap_flag (time : List TimeRow) (monthly : Bool) (ts : Nat) (leap : Bool)
+    (ps : List Period) (h : allRunPeriods time monthly ts leap = .ok ps) : ∀ p ∈ ps, p.leap = leap :=
+  allRunPeriods_leap time monthly ts leap ps h
+
+/-- Case split of the time-table stage of `data_collections_by_output_name`, branch 1: first and last
+    data row in the same environment - the single run period (or none, for annual data) is used. -/
+theorem C19_periods_branch_single (time : List TimeRow) (stT enT : Nat) (rp : Option Period) (freq : Freq)
+    (h : extractRunPeriod time stT enT = .ok (rp, freq, false)) :
+    periodsOf time stT enT = .ok (freq, .inr rp) := by
+  unfold periodsOf
+  simp only [h, bind, Except.bind, pure, Except.pure]
+
+/-- Branch 2: annual / run-period frequency (no analysis period) - nothing is rebuilt, also with
+    several environments. -/
+theorem C19_periods_branch_annual (time : List TimeRow) (stT enT : Nat) (freq : Freq) (m : Bool)
+    (h : extractRunPeriod time stT enT = .ok (none, freq, m)) :
+    periodsOf time stT enT = .ok (freq, .inr none) := by
+  unfold periodsOf
+  cases m <;> simp only [h, bind, Except.bind, pure, Except.pure]
+
+/-- Branch 3: several environments - all run periods are rebuilt from the `Time` rows of the data's own
+    interval type, with timestep and leap flag of the period found first. -/
+theorem C19_periods_branch_all (time : List TimeRow) (stT enT : Nat) (p : Period) (freq : Freq)
+    (h : extractRunPeriod time stT enT = .ok (some p, freq, true)) :
+    periodsOf time stT enT =
+      match allRunPeriods (time.filter (ownIntervalType freq)) (freq == .monthly) p.timestep p.leap with
+      | .ok ps => .ok (freq, .inl ps)
+      | .error e => .error e := by
+  unfold periodsOf
+  simp only [h, bind, Except.bind, pure, Except.pure]
+  cases allRunPeriods (time.filter (ownIntervalType freq)) (freq == .monthly) p.timestep p.leap <;> rfl
+
+/-- The name argument is a membership test: two name lists (neither of length 1) with the same members -
+    another order, duplicates, any container the caller used - select the same dictionary rows and give
+    the same collections and the same flat values.  (The model takes lists; the check feeds the code
+    tuples, lists and another sequence type and compares all with this one model answer.) -/
+theorem C19_name_list_is_a_set (conv : α → α) (db : DB α) (ns ns' : List String)
+    (h : ∀ n, n ∈ ns ↔ n ∈ ns') (hl : ns.length ≠ 1) (hl' : ns'.length ≠ 1) :
+    headerRows db.dict (.many ns) = headerRows db.dict (.many ns') ∧
+    queryAll conv db (.many ns) = queryAll conv db (.many ns') ∧
+    valuesByName db (.many ns) = valuesByName db (.many ns') := by
+  have hh : headerRows db.dict (.many ns) = headerRows db.dict (.many ns') := by
+    unfold headerRows
+    rw [selects_many_congr ns ns' h hl hl']
+  have hs : (NameQuery.many ns).surface = (NameQuery.many ns').surface := contains_congr ns ns' h "Surface"
+  refine ⟨hh, ?_, ?_⟩
+  · unfold queryAll
+    rw [hh, hs]
+  · unfold valuesByName
+    rw [hh]
+
+/-- A one-element name list selects the rows of its name like the name itself; the flat values coincide,
+    and so do the collections whenever the `'Surface' in output_name` test answers the same for the list
+    (membership) and the string (substring) - the one place where sql.py treats the two shapes differently. -/
+theorem C19_one_name_list (conv : α → α) (db : DB α) (n : String) :
+    headerRows db.dict (.many [n]) = headerRows db.dict (.single n) ∧
+    valuesByName db (.many [n]) = valuesByName db (.single n) ∧
+    ((NameQuery.many [n]).surface = (NameQuery.single n).surface →
+      queryAll conv db (.many [n]) = queryAll conv db (.single n)) := by
+  have hh : headerRows db.dict (.many [n]) = headerRows db.dict (.single n) := by
+    unfold headerRows
+    rw [selects_one n]
+  refine ⟨hh, ?_, ?_⟩
+  · unfold valuesByName
+    rw [hh]
+  · intro hs
+    unfold queryAll
+    rw [hh, hs]
+
+/-- Sample (kernel-evaluated test): reversed order with a duplicate selects the same rows. -/
+example : headerRows exDB.dict (.many ["E", "No Such Output", "E"]) =
+    headerRows exDB.dict (.many ["No Such Output", "E"]) :=
+  (C19_name_list_is_a_set (· / 2) exDB _ _ (by
+    intro n
+    simp only [List.mem_cons, List.mem_nil_iff, or_false]
+    constructor
+    · rintro (h | h | h)
+      · exact Or.inr h
+      · exact Or.inl h
+      · exact Or.inr h
+    · rintro (h | h)
+      · exact Or.inr (Or.inl h)
+      · exact Or.inl h) (by decide) (by decide)).1
 
 end Sql
